@@ -164,6 +164,9 @@ def runRace (b : Block) : Res :=
       | none => if raceL.isEmpty then some "no_race_verdict" else none
   let c11 : Option String := (once.find? (fun p => p.2 > 1)).map (fun p => s!"run-once_function_f{p.1}_executed_{p.2}_times_concurrently")
   let c06 : Option String := (got.find? (fun o => o.startsWith "panic:")).map (fun o => s!"concurrent_{o}")
+  -- a run-once body that ran twice: some concurrent call received the result of a second execution, which no
+  -- sequential execution of these calls can produce (there the body runs once and everybody sees that result)
+  let c12 := c12.or (c11.map (fun m => s!"outcome_of_no_sequential_execution:{m}"))
   -- C04: when every sequential execution reports a function's own error (a memoised failure of a run-once
   -- converter the target depends on), no concurrent call may succeed
   let c04 : Option String :=
